@@ -18,7 +18,11 @@
 //! Statically allocated strings.
 
 use std::mem;
+#[cfg(not(starlark_verif))]
 use std::sync::atomic::AtomicU32;
+
+#[cfg(starlark_verif)]
+use crate::verif::sync::AtomicU32;
 
 use crate::values::FrozenStringValue;
 use crate::values::FrozenValue;
